@@ -1,4 +1,5 @@
 import EvermintModel.Model.Block
+import EvermintModel.Model.Bloom
 import Driver.Common
 namespace Driver.Block
 open Evermint Evermint.Block
@@ -75,6 +76,22 @@ def step (s : BState) (toks : List String) : BState × String :=
       nonce := kvNat rest "nonce" }
     let (s', o) := stepCos s t (kvNat rest "ok" == 1) (kvNat rest "gu")
     (s', showCos o)
+  | ["bloom", enc] =>
+    -- receipts `;` logs `|` items `,` (hex); every receipt's bloom from its own logs and the block bloom, with Keccak-256
+    let parseLog (l : String) : Option Evermint.Bloom.Log :=
+      match (l.splitOn ",").mapM Evermint.Keccak.ofHex with
+      | some (a :: ts) => some ⟨a, ts⟩
+      | _ => none
+    let parseRcpt (r : String) : Option (List Evermint.Bloom.Log) :=
+      if r == "-" then some [] else (r.splitOn "|").mapM parseLog
+    match (enc.splitOn ";").mapM parseRcpt with
+    | none => (s, "bad-op")
+    | some rs =>
+      let hexOf (n : Nat) : String :=
+        if n == 0 then "-" else Evermint.Keccak.toHex ((List.range 256).map (fun i => UInt8.ofNat ((n >>> (8 * (255 - i))) % 256)))
+      let H := Evermint.Keccak.keccak256
+      let rb := ",".intercalate (rs.map (fun r => hexOf (Evermint.Bloom.logsBloom H r)))
+      (s, s!"rb={rb} bb={hexOf (Evermint.Bloom.blockBloom H rs)}")
   | ["end"] =>
     let bf := match endBlock s with
       | .ok v => toString v | .panicDivZero => "panic-divzero" | .panicOverflow => "panic-overflow"
